@@ -28,6 +28,9 @@ CHECKS = {
     "C08": dict(spec="ServerDispatch", ref="DESIGN.md §4 C08",
                 text="ServerDispatch models handle_message step by step (lookup, invoke, reply) over message kind x method class (core, tool/resource returning/raising/nonsense/unknown/unhashable, custom ok/raises/nonsense/none, every MessageMethod.NOTIFICATION_* name, unregistered, random) x params shape x id class; TLC checks one-response-per-request, no-response-per-notification, never-raises and the statement's code table exhaustively, on the deviation-free design and on the model of the tree. Every case is then executed against a real MCPServer/ProtocolHandler and TLC judges the observed outcome (and the JSON line a stdio loop would print) against the clauses and against the implementation-shaped prediction (drift).",
                 note="Trusted: TLC; the configured server in harness/drivers/server_drv.py; notification names extracted from MessageMethod. Known finding: a handler returning (None, sid) to a request (pinned by a repository test)."),
+    "C11": dict(spec="HttpTransport", ref="DESIGN.md §4 C11",
+                text="HttpTransport specifies the serial sender loop, the outcome relation Allowed(kind, behaviour) of the statement (what may appear on the read stream for every way an endpoint can answer a POST) and session tracking; TLC enumerates the matrix of meaningful behaviours (6 statuses x 4 content types x 11 body classes x 7 SSE encodings x 3 transport exceptions x session header) and checks one-terminal, no-invention and session-most-recent on all sequences of length 2 (257 k states). Every matrix entry - alone with every id class (incl. 0 and \"\"), after a session-issuing response, and inside seeded sequences of length 4, each followed by a probe request - runs against the real http_client over a scripted httpx transport under the virtual clock; TLC judges every step (items on the read stream, Mcp-Session-Id header) without stopping at the first failure.",
+                note="Trusted: TLC, the httpx MockTransport seam, the SSE encoder of the driver (produces the conformant encodings). The real-socket variant of DESIGN §4 is not built."),
     "C13": dict(spec="Versioning, BatchGate", ref="DESIGN.md §4 C13",
                 text="Versioning defines the numeric order, the string order ProtocolVersion.compare uses and the branch structure of supports_batching over triples; TLC checks on every grid point (quick: 2015..2035, thorough: the whole 2.1 M grid) that the orders agree, that the decision is 'older than 2025-06-18', that the code's branches implement it and that it is monotone. The real supports_batching, BatchProcessor and ProtocolVersion.compare are evaluated on all 2 100 000 strings in both tiers and TLC checks their run-length encoded decision vectors index by index. BatchGate specifies the transport rule (reject the whole batch with one -32600 / deliver valid members in order, drop invalid ones alone, version changes at any time); TLC checks its action properties and generates scripts that, with seeded longer ones, run against the real StdioClient behind a scripted process seam; each step's deliveries, notifications and bytes to the child are validated against the specification.",
                 note="Trusted: TLC, the process seam (anyio.open_process replaced), the virtual clock. A trace the BatchGate specification cannot follow is a violation at that step (the specification is the statement)."),
